@@ -12,7 +12,9 @@ package main
 //                 lines written byte by byte, split inside CRLF, split mid-line, or coalesced
 //                 with the next line: framing must not depend on read chunking).  Sessions
 //                 contain over-long lines (around bufio's 4096-byte buffer, 5000, 8191+512,
-//                 20000, ~70000 bytes) followed by ordinary lines and a marker.
+//                 20000, ~70000 bytes) and "long homogeneous payloads" (about SplitLen bytes of ONE
+//                 byte class inside CTCP PING / PING / 433: the handlers that re-send server text),
+//                 each followed by a marker: a handler that never returns = no PONG within 5 s.
 //                 Each session runs in a CHILD PROCESS (this binary re-executed as
 //                 "h C02child") because an unrecovered panic on a goirc goroutine kills the
 //                 whole process; child crash / stall / missing pong = "dead".
@@ -24,6 +26,7 @@ import (
 	"net"
 	"os"
 	"os/exec"
+	"runtime"
 	"sort"
 	"strings"
 	"sync"
@@ -130,14 +133,22 @@ func c02Class(in Fields) string {
 		return c02tClass(in)
 	}
 	if in.S(0) == "session" {
-		nlong := 0
+		nlong, necho := 0, 0
 		for _, l := range in[2:] {
 			if len(l)+2 > 4096 {
 				nlong++
+			} else if len(l) > 380 {
+				necho++
 			}
 		}
 		m := in.I(1)
-		return fmt.Sprintf("session:tracking=%d:chunked=%d:longlines=%d", m&1, (m>>1)&1, nlong)
+		pb := "0"
+		if necho >= 8 {
+			pb = "8+"
+		} else if necho > 0 {
+			pb = "1-7"
+		}
+		return fmt.Sprintf("session:tracking=%d:chunked=%d:longlines=%d:payloads~SplitLen=%s", m&1, (m>>1)&1, nlong, pb)
 	}
 	raw := in.S(1)
 	origin := "other"
@@ -406,6 +417,109 @@ func c02LongLine(r *Rand, total int) string {
 	}
 }
 
+// ---------- "long homogeneous payload" lines (seeded C02-6) ----------
+// Built-in handlers that RE-SEND server-controlled text run it through commands.go: h_CTCP answers
+// CTCP PING <arg> with CtcpReply(nick, PING, arg) = splitMessage(arg, SplitLen); h_PING echoes its
+// argument in a PONG; h_433 derives the next NICK from the rejected one.  A boundary computation in
+// there that depends on the CLASS of the bytes around the cut (UTF-8 continuation / lead bytes, spaces,
+// no spaces) is only reached by a payload of about SplitLen bytes drawn from ONE class.
+var c02EchoClasses = []string{"cont", "lead", "spaces", "nospace", "utf8-2", "utf8-3", "utf8-4", "repeat", "cont+space", "sentence"}
+
+// eff = the effective split length (SplitLen, or 450 when SplitLen < 13)
+func c02EchoLen(r *Rand, eff int) int {
+	switch r.Intn(10) {
+	case 0, 1, 2:
+		return eff + r.Range(-3, 3)
+	case 3, 4:
+		return eff + r.Range(1, 8) // just over: the first cut happens, a short rest remains
+	case 5:
+		return 2*eff + r.Range(-6, 6) // a second cut
+	case 6:
+		return 3*eff + r.Range(0, 40)
+	default:
+		return r.Range(380, 500)
+	}
+}
+
+func c02EchoPayload(r *Rand, class string, n int) []byte {
+	b := make([]byte, 0, n+4)
+	seq := func(f func() []byte) {
+		for len(b) < n {
+			b = append(b, f()...)
+		}
+		b = b[:n] // may cut the last sequence: a truncated rune at the very end
+	}
+	switch class {
+	case "cont":
+		seq(func() []byte { return []byte{byte(0x80 + r.Intn(0x40))} })
+	case "lead":
+		seq(func() []byte { return []byte{byte(0xC0 + r.Intn(0x38))} })
+	case "spaces":
+		seq(func() []byte { return []byte{' '} })
+	case "nospace":
+		seq(func() []byte { return []byte{"abcxyzABC0189_-"[r.Intn(15)]} })
+	case "utf8-2":
+		seq(func() []byte { return []byte(string(rune(r.Range(0x80, 0x7FF)))) })
+	case "utf8-3":
+		seq(func() []byte {
+			c := r.Range(0x800, 0xFFFF)
+			if c >= 0xD800 && c <= 0xDFFF {
+				c = 0x20AC
+			}
+			return []byte(string(rune(c)))
+		})
+	case "utf8-4":
+		seq(func() []byte { return []byte(string(rune(r.Range(0x10000, 0x10FFFF)))) })
+	case "repeat":
+		c := byte(r.Intn(256))
+		if c == '\n' || c == 0 {
+			c = 0xBF
+		}
+		seq(func() []byte { return []byte{c} })
+	case "cont+space": // one class, with ONE space (or ". ") planted near the cut
+		seq(func() []byte { return []byte{byte(0x80 + r.Intn(0x40))} })
+		if n > 20 {
+			pos := n - 1 - r.Intn(20)
+			if r.Bool() && pos < len(b) {
+				pos = r.Intn(n)
+			}
+			b[pos] = ' '
+			if r.Bool() && pos > 0 {
+				b[pos-1] = '.'
+			}
+		}
+	default: // "sentence": words and sentence separators, the ordinary case
+		seq(func() []byte { return []byte(r.Pick([]string{"word ", "lorem. ", "ipsum, ", "x! ", "y? ", "z: ", "a; ", "b\" ", "c' ", "longerword"})) })
+	}
+	return b
+}
+
+// a line whose built-in handler re-sends the payload; [me] = the client's nick.  The 433 form carries
+// the payload among the MIDDLE parameters (strings.Fields sees it): with asciiMiddles its class is
+// restricted to space-free ASCII (transcripts: the executable model instance is ASCII there, and the
+// derived "NICK ..." reply must not look like one of the transcript oracle's probe answers)
+func c02EchoLine(r *Rand, me string, eff int, asciiMiddles bool) string {
+	class := c02EchoClasses[r.Intn(len(c02EchoClasses))]
+	form := r.Intn(10)
+	if form == 2 && asciiMiddles {
+		class = "nospace"
+	}
+	p := string(c02EchoPayload(r, class, c02EchoLen(r, eff)))
+	src := r.Pick([]string{"n1!u@h", "al!u0@h0.example", "irc.example", "x!y@z"})
+	switch form {
+	case 0:
+		return "PING :" + p // h_PING: PONG :<payload>
+	case 1:
+		return ":" + src + " PRIVMSG " + me + " :\x01VERSION " + p + "\x01" // h_CTCP VERSION: replies cfg.Version
+	case 2:
+		return ":irc.example 433 * " + strings.ReplaceAll(p, " ", "_") + " :Nickname is already in use" // h_433: NICK <derived>
+	case 3:
+		return ":" + src + " PRIVMSG #a :\x01PING " + p + "\x01" // to a channel: same reply path
+	default:
+		return ":" + src + " PRIVMSG " + me + " :\x01PING " + p + "\x01" // h_CTCP PING: CtcpReply -> splitMessage
+	}
+}
+
 func c02Session(r *Rand, mode int) Fields {
 	in := F("session", mode)
 	var lines []string
@@ -439,6 +553,12 @@ func c02Session(r *Rand, mode int) Fields {
 			p2 := p1 + 1 + r.Intn(len(lines)-p1-1)
 			lines = append(lines[:p2], append([]string{":irc.example CAP * " + sub + " :" + r.Pick([]string{"a b", "a", "multi-prefix"})}, lines[p2:]...)...)
 		}
+	}
+	// long homogeneous payloads for the handlers that re-send server text (SplitLen is the default 450)
+	for k := r.Range(4, 8); k > 0; k-- {
+		pos := r.Intn(len(lines) - 3)
+		l := strings.ReplaceAll(c02EchoLine(r, "vbot", 450, false), "\n", "\r")
+		lines = append(lines[:pos], append([]string{l}, lines[pos:]...)...)
 	}
 	for _, l := range lines {
 		in = append(in, []byte(l))
@@ -518,7 +638,7 @@ func c02RunChild(in Fields) Fields {
 	go func() { done <- cmd.Wait() }()
 	select {
 	case err = <-done:
-	case <-time.After(120 * time.Second):
+	case <-time.After(90 * time.Second):
 		cmd.Process.Kill()
 		<-done
 		err = fmt.Errorf("child timed out")
@@ -528,14 +648,25 @@ func c02RunChild(in Fields) Fields {
 	if err == nil && last == "alive" {
 		return F("alive")
 	}
+	inflight := ""
+	for k := len(journal) - 1; k >= 0; k-- {
+		if strings.HasPrefix(journal[k], "send ") {
+			inflight = "in flight: " + journal[k]
+			break
+		}
+	}
 	first := strings.SplitN(strings.TrimSpace(errb.String()), "\n", 2)[0]
 	if err != nil && first == "" {
 		first = err.Error()
 	}
-	return F("dead", last, first)
+	return F("dead", last, inflight, first)
 }
 
 // ---------- kind "session": child side ----------
+
+// how long the server end waits for a PONG / for the client to take a write: a clean client answers
+// in well under a millisecond; a wedged event loop (a handler that never returns) is "dead"
+const c02Wait = 5 * time.Second
 
 type c02Srv struct {
 	mu   sync.Mutex
@@ -628,15 +759,27 @@ func c02ChildMain() {
 		os.Exit(4)
 	}
 	say("connected tracking=%v chunked=%v lines=%d", tracking, chunked, len(lines))
+	// a handler that never returns usually allocates while it spins: do not let the child grow
+	go func() {
+		var m runtime.MemStats
+		for {
+			time.Sleep(100 * time.Millisecond)
+			runtime.ReadMemStats(&m)
+			if m.HeapAlloc > 768<<20 {
+				say("stalled memory-runaway heap=%dMB", m.HeapAlloc>>20)
+				os.Exit(3)
+			}
+		}
+	}()
 	mark := 0
 	syncMark := func() {
 		mark++
-		srvConn.SetWriteDeadline(time.Now().Add(10 * time.Second))
+		srvConn.SetWriteDeadline(time.Now().Add(c02Wait))
 		if _, err := srvConn.Write([]byte(fmt.Sprintf("PING :VERIFMARK%d\r\n", mark))); err != nil {
 			say("stalled mark=%d write: %v", mark, err)
 			os.Exit(3)
 		}
-		if why := srv.waitFor([]byte(fmt.Sprintf("PONG :VERIFMARK%d\r\n", mark)), 10*time.Second); why != "" {
+		if why := srv.waitFor([]byte(fmt.Sprintf("PONG :VERIFMARK%d\r\n", mark)), c02Wait); why != "" {
 			say("stalled mark=%d %s", mark, why)
 			os.Exit(3)
 		}
@@ -644,7 +787,7 @@ func c02ChildMain() {
 	}
 	syncMark()
 	write := func(i int, b []byte) {
-		srvConn.SetWriteDeadline(time.Now().Add(10 * time.Second))
+		srvConn.SetWriteDeadline(time.Now().Add(c02Wait))
 		if _, err := srvConn.Write(b); err != nil {
 			say("stalled line=%d write: %v", i, err)
 			os.Exit(3)
@@ -677,12 +820,14 @@ func c02ChildMain() {
 		case style == 4 && len(wire) > 3: // split mid-line
 			write(i, wire[:len(wire)/2])
 			write(i, wire[len(wire)/2:])
-		case style == 5 && i+1 < len(lines) && (i+1)%50 != 0: // coalesce with the next line
+		case style == 5 && i+1 < len(lines) && (i+1)%50 != 0 && len(l) <= 300: // coalesce with the next line
 			carry = wire
 		default:
 			write(i, wire)
 		}
-		if (i+1)%50 == 0 {
+		// a marker after every 50 lines AND right after every long line (over-long lines, payloads
+		// of about SplitLen bytes): a handler that never returns is reported with that line in flight
+		if (i+1)%50 == 0 || len(l) > 300 {
 			syncMark()
 		}
 	}
